@@ -164,6 +164,13 @@ def truthify(e):
             n = s.generic_visit(n)
             if isinstance(n.func, ast.Attribute) and n.func.attr == 'intersection' and len(n.args) == 1 and not n.keywords:
                 return ast.BinOp(left=n.func.value, op=ast.BitAnd(), right=n.args[0])
+            if isinstance(n.func, ast.Attribute) and n.func.attr == 'isdisjoint' and len(n.args) == 1 and not n.keywords:
+                # A.isdisjoint(B)  ==  not (set(A) & set(B))
+                def as_set(x):
+                    if isinstance(x, ast.Call) and isinstance(x.func, ast.Name) and x.func.id in ('set', 'frozenset'):
+                        return x
+                    return ast.Call(func=ast.Name(id='set', ctx=ast.Load()), args=[x], keywords=[])
+                return ast.UnaryOp(op=ast.Not(), operand=ast.BinOp(left=as_set(n.func.value), op=ast.BitAnd(), right=as_set(n.args[0])))
             return n
     return T().visit(copy.deepcopy(e))
 
@@ -220,10 +227,19 @@ def _table(f, mode, post=None):
     ex = (lambda e, st: post(ex0(e, st))) if post else ex0
     conds = Conds(f.node, ex)
     rows = []
+    def split(cond, v, st):
+        # a conditional expression as the returned value: one row per arm
+        if isinstance(v, ast.IfExp):
+            from ..guards import f_and, f_not
+            t = to_formula(v.test)
+            split(f_and(cond, t), v.body, st)
+            split(f_and(cond, f_not(t)), v.orelse, st)
+        else:
+            rows.append((cond, 'return', v, st))
     for o in outcomes(f.node, conds, None):
         if o.kind == 'return':
             v = ex(o.stmt.value, o.stmt) if o.stmt.value is not None else ast.Constant(None)
-            rows.append((o.cond, 'return', v, o.stmt))
+            split(o.cond, v, o.stmt)
         else:
             rows.append((o.cond, 'raise', o.key, o.stmt))
     return rows
@@ -352,10 +368,12 @@ def check_tail(ctx, cls, f):
         inter = None
         for n in walk_own(f.node):
             for x in ast.walk(n) if isinstance(n, (ast.Assign, ast.Return, ast.If)) else []:
-                if (isinstance(x, ast.Call) and isinstance(x.func, ast.Attribute) and x.func.attr == 'intersection') or \
+                if (isinstance(x, ast.Call) and isinstance(x.func, ast.Attribute) and x.func.attr in ('intersection', 'isdisjoint')) or \
                         (isinstance(x, ast.BinOp) and isinstance(x.op, ast.BitAnd)):
                     st_ = n
                     cand_ = truthify(view.expand(x, st_))
+                    if isinstance(cand_, ast.UnaryOp) and isinstance(cand_.op, ast.Not):
+                        cand_ = cand_.operand
                     if isinstance(cand_, ast.BinOp) and all(isinstance(o, ast.Call) and call_name(o) == 'set' for o in (cand_.left, cand_.right)):
                         inter = cand_
         ok = inter is not None
